@@ -1,11 +1,11 @@
 #!/usr/bin/env python3
 """seeded_table.py — markdown table of the seeded-change experiment: seeded/*/meta.json + result-quick.json (the final
 verdict with the checks as committed) + the first verdict each change got when its round was first run
-(seeded/round1.log, round2_first.log ... round6_first.log)."""
+(seeded/round1.log, round2_first.log ... round8_first.log)."""
 import json, os, re
 root = '/verif/seeded'
 first = {}
-for f in ('round1.log', 'round2_first.log', 'round3_first.log', 'round4_first.log', 'round5_first.log', 'round6_first.log'):
+for f in ('round1.log', 'round2_first.log', 'round3_first.log', 'round4_first.log', 'round5_first.log', 'round6_first.log', 'round7_first.log', 'round8_first.log'):
     p = os.path.join(root, f)
     if not os.path.exists(p):
         continue
@@ -16,10 +16,10 @@ for f in ('round1.log', 'round2_first.log', 'round3_first.log', 'round4_first.lo
 
 
 def rnd(d):
-    return 6 if '-r6.' in d else 5 if '-r5.' in d else 4 if '-r4.' in d else 3 if '-r3.' in d else 2 if '-r2.' in d else 1
+    return 8 if '-r8.' in d else 7 if '-r7.' in d else 6 if '-r6.' in d else 5 if '-r5.' in d else 4 if '-r4.' in d else 3 if '-r3.' in d else 2 if '-r2.' in d else 1
 
 
-rows, tot = [], {r: [0, 0, 0] for r in (1, 2, 3, 4, 5, 6)}
+rows, tot = [], {r: [0, 0, 0] for r in (1, 2, 3, 4, 5, 6, 7, 8)}
 for d in sorted(os.listdir(root)):
     p = os.path.join(root, d)
     if not os.path.isdir(p):
@@ -39,5 +39,5 @@ print('| id | round | subtlety | change (one line) | first verdict | now | repor
 print('|----|-------|----------|-------------------|---------------|-----|-------------|')
 print('\n'.join(rows))
 print()
-for r in (1, 2, 3, 4, 5, 6):
+for r in (1, 2, 3, 4, 5, 6, 7, 8):
     print('round %d: %d changes, %d caught at first, %d caught now.' % (r, tot[r][0], tot[r][1], tot[r][2]))
